@@ -201,6 +201,12 @@ func checkManagerCallbackWiring(c *Ctx, rule string) {
 					}
 				}
 			}
+			// … or straight from the caller's struct under "callbacks != nil", when the engine's constructor itself
+			// installs, for this listener, the default of NewTableEngineCallbacks() — what the manager bound for a
+			// caller without callbacks
+			if !okSrc && symIsParam(src, create.Params[2]) && nilGuard(p.Guards(ci), false, func(x *Sym) bool { return symIsParam(x, create.Params[2]) }) && engineDefaultListener(p, setter) {
+				okSrc = true
+			}
 			ok = okSrc
 		}
 		seen[setter] = true
@@ -297,4 +303,37 @@ func checkPlayerRecordWritersLocked(c *Ctx, rule, field, what string) {
 		}
 	}
 	c.Min(rule, "exported operations writing "+what, n, 1)
+}
+
+// engineDefaultListener: the engine's constructor stores NewTableEngineCallbacks().<setter> into the listener
+// field that the setter <setter> writes.
+func engineDefaultListener(p *Prog, setter string) bool {
+	var field string
+	for _, f := range p.Funcs {
+		if fnName(f) == setter && f.Signature.Recv() != nil && len(f.Params) == 2 {
+			for _, ss := range p.Stores([]*ssa.Function{f}) {
+				if ss.Owner == "tableEngine" && ss.ValV == ssa.Value(f.Params[1]) {
+					field = ss.Field
+				}
+			}
+		}
+	}
+	if field == "" {
+		return false
+	}
+	for _, f := range p.Funcs {
+		if fnName(f) != "NewTableEngine" || f.Signature.Recv() != nil {
+			continue
+		}
+		for _, ss := range p.Stores([]*ssa.Function{f}) {
+			if ss.Owner != "tableEngine" || ss.Field != field {
+				continue
+			}
+			v := ss.Val.Strip()
+			if v.Kind == "field" && v.Owner == "TableEngineCallbacks" && v.Name == setter && v.Args[0].Strip().IsCall("pokertable.NewTableEngineCallbacks") {
+				return true
+			}
+		}
+	}
+	return false
 }
